@@ -46,6 +46,12 @@ class Check:
         self.cov = dict(states=0, transitions=0, traces_validated_against_impl=0, samples=[])
         self.assumptions = []
         self.notes = {}
+        # replays of an earlier run of this property are stale
+        d = os.path.join(VERIF, 'replays', pid)
+        if os.path.isdir(d):
+            for f in os.listdir(d):
+                if f.startswith('v') and f.endswith('.json'):
+                    os.unlink(os.path.join(d, f))
         self.known = [f for f in load_known().get('findings', []) if f.get('property') == pid
                       or pid in f.get('properties', [])]
 
